@@ -425,6 +425,8 @@ fn cancel(args: &[String]) {
         let res = runtime.block_on(async {
             tokio::time::timeout(Duration::from_secs(30), async {
                 let w = World::new(s.prog.clone(), 0);
+                // in a third of the histories the executors themselves abandon sub-queries and ask again
+                w.abandon_every.store(if k % 3 == 2 { 2 + rr.below(3) } else { 0 }, Ordering::SeqCst);
                 let engine = open_mem_yielding(&w).await;
                 let mut inputs: HashMap<u32, i64> = HashMap::new();
                 let nodes: Vec<Node> = s.prog.exprs.keys().copied().collect();
